@@ -62,6 +62,7 @@ def cases(tier, seed):
                     out.append({"kind": "ladder", "model": model, "E": e, "frac": fr, "depth": dep})
         for dep in (0, 1, 3):
             out.append({"kind": "energy", "model": model, "depth": dep})
+        out.append({"kind": "ice_history", "model": model})
     return out
 
 
@@ -282,7 +283,50 @@ def _energy(case):
             "sample": {"model": model, "on_cone_peak_over_E": ratios}}
 
 
+def _ice_history(case):
+    """The Cherenkov cone belongs to the ice model the signal is built with: pulses for the SAME vertex depth are built with one
+    ice model after another (history over objects in one process) and each must peak on its own cone."""
+    from pyrex.ice_model import AntarcticIce, GreenlandIce, UniformIce
+    model = case["model"]
+    depth = -333.0
+    ices = [("antarctic", AntarcticIce()), ("uniform1.5", UniformIce(1.5, valid_range=(-3000, 0))), ("greenland", GreenlandIce()),
+            ("antarctic-again", AntarcticIce()), ("uniform1.3", UniformIce(1.3, valid_range=(-3000, 0)))]
+    offs = [0.0, 2.0, -2.0, 5.0, -5.0, 10.0, -10.0]
+    fails, nontriv = [], []
+    n = 0
+    times = np.arange(1024) * 2.0 ** -34
+    for name, ice in ices:
+        tc = math.acos(1 / float(ice.index(depth)))
+        peaks = []
+        for a in offs:
+            n += 1
+            p = _particle(1e9, 0.7, 0.3, depth)
+            try:
+                v = np.array(_cls(model)(times, p, tc + math.radians(a), viewing_distance=100.0, ice_model=ice, t0=300 * 2.0 ** -34).values,
+                             dtype=float)
+            except Exception as e:
+                if src.exception_origin(e) != "library":
+                    raise
+                fails.append({"check": "exception", "what": "%s in %s ice, %g deg off its cone: %s" % (model, name, a, src.short_tb(e)),
+                              "tags": {"model": model, "group": "exception|" + model}})
+                peaks = None
+                break
+            peaks.append(float(np.max(np.abs(v))))
+        if not peaks:
+            continue
+        nontriv.append("%s|ice|%s" % (model, name))
+        if not peaks[0] >= max(peaks) * (1 - 1e-9):
+            fails.append({"check": "cone-maximum-ice", "what": "%s built with %s ice (index %.4f at the vertex, after pulses for the same depth "
+                                                               "in other ice models): peak amplitudes %s at offsets %s deg from ITS Cherenkov angle -- "
+                                                               "the on-cone one is not the largest" % (model, name, float(ice.index(depth)),
+                                                                                                       ["%.3g" % x for x in peaks], offs),
+                          "tags": {"model": model, "group": "cone-maximum-ice|" + model, "ice": name}})
+    return {"n": n, "nontrivial": nontriv, "fails": fails, "sample": {"model": model, "ices": [x for x, _ in ices], "depth": depth}}
+
+
 def evaluate(case):
+    if case["kind"] == "ice_history":
+        return _ice_history(case)
     if case["kind"] == "point":
         return _point(case)
     if case["kind"] == "ladder":
